@@ -7,6 +7,7 @@
 -/
 import Zed.Proofs.FuseFuser
 import Zed.Proofs.FuseMergeLemmas
+import Zed.Proofs.FuseMergeFits
 namespace Zed.Props.C20
 open Zed.Fuse
 
@@ -249,6 +250,134 @@ theorem fuse_lossless_partial (fuel memMax : Nat) (xs : List Input) (outs : List
   obtain ⟨v', h1, h2⟩ := evalShaper_good T _ _ _ hg ht
   exact ⟨v', by rw [h1], h2⟩
 
+/-! ### Guards on the input types only
+
+  `fits a T` (Zed.Model.FuseFits) relates an input *type* to the fused *type*, place by place,
+  without mentioning plans: same underlying type, null, record ⊆ record, element fits element,
+  every member of an input union fits, and — wherever something has to go into a union of the
+  fused type — a member of that union with the same underlying type (NoUnionMemberReshape); no
+  map has to become a different map, no primitive a different primitive (NoMapReshape). -/
+
+/-- **fits ⇒ good plan.**  If the input type fits the target, `shaperType` answers the target
+    and `newStep` plans a step that satisfies `goodStep`. -/
+theorem fits_gives_good_plan (a T : Ty) (h : fits a T = true) :
+    ∃ s, newShaper a T = .ok (T, s) ∧ s.toType = T ∧ goodStep a s = true :=
+  newShaper_of_fits h
+
+/-- **fuse_lossless_inputs_partial** (and uniformity).  Guard on the input types only: every
+    input type fits the fused type.  Then every output is a value of the fused type carrying
+    exactly the non-null leaves of its input. -/
+theorem fuse_lossless_inputs_partial (fuel memMax : Nat) (xs : List Input) (outs : List Out) (T : Ty)
+    (h : fuse fuel memMax xs = some outs) (hT : aggType fuel (xs.map (·.ty)) = some (some T))
+    (hfit : ∀ x ∈ xs, fits x.ty T = true) (hwt : WellTyped xs)
+    (i : Nat) (hi : i < xs.length) :
+    ∃ v', outs[i]? = some (.val T v') ∧ ∀ l, l ∈ leaves T v' ↔ l ∈ leaves xs[i].ty xs[i].val := by
+  refine fuse_lossless_partial fuel memMax xs outs T h hT i hi ?_ (hwt _ (List.getElem_mem hi))
+  have hall := guardsFrom_of_fits T xs [] (cacheOK_nil T) hfit
+  simp only [guardAll]
+  rw [List.getElem?_eq_getElem (by rw [guardsFrom_length]; exact hi)]
+  exact congrArg some (hall _ (List.getElem_mem _))
+
+/-- **merge_admits_good_plans.**  For two clean (union-free, map-free, distinct field names)
+    types, both fit their merge — so by `fits_gives_good_plan` the merged type admits a good
+    shaping plan from either input.  (For three inputs this is false: `not_fuse_uniform`.) -/
+theorem merge_admits_good_plans (n : Nat) (a b c : Ty) (ha : clean a = true) (hb : clean b = true)
+    (h : merge n a b = some c) : fits a c = true ∧ fits b c = true :=
+  merge_fitsJoin n a b c ha hb h
+
+private theorem firstSeen_nodup (seen ts : List Ty) : (firstSeen seen ts).Nodup := by
+  induction ts generalizing seen with
+  | nil => simp [firstSeen]
+  | cons t r ih =>
+    simp only [firstSeen]
+    by_cases ht : t ∈ seen
+    · simpa [ht] using ih seen
+    · simp only [ht, if_false, List.nodup_cons]
+      refine ⟨?_, ih _⟩
+      intro hm
+      have := (mem_firstSeen (t :: seen) r t).1 hm
+      exact this.2 List.mem_cons_self
+
+private theorem two_element_lists {a b : Ty} (l : List Ty) (hnd : l.Nodup) (h : ∀ t ∈ l, t = a ∨ t = b) :
+    l = [] ∨ l = [a] ∨ l = [b] ∨ l = [a, b] ∨ l = [b, a] := by
+  match l, hnd, h with
+  | [], _, _ => exact Or.inl rfl
+  | [x], _, h =>
+    rcases h x List.mem_cons_self with rfl | rfl
+    · exact Or.inr (Or.inl rfl)
+    · exact Or.inr (Or.inr (Or.inl rfl))
+  | x :: y :: rest, hnd, h =>
+    have hx := h x List.mem_cons_self
+    have hy := h y (List.mem_cons_of_mem _ List.mem_cons_self)
+    simp only [List.nodup_cons, List.mem_cons, not_or] at hnd
+    obtain ⟨⟨hxy, hxr⟩, hyr, _⟩ := hnd
+    have hrest : rest = [] := by
+      cases rest with
+      | nil => rfl
+      | cons z zs =>
+        exfalso
+        have hz := h z (by simp)
+        have hxz : ¬ x = z := fun e => hxr (e ▸ List.mem_cons_self)
+        have hyz : ¬ y = z := fun e => hyr (e ▸ List.mem_cons_self)
+        rcases hx with rfl | rfl <;> rcases hy with rfl | rfl <;> rcases hz with rfl | rfl <;> simp_all
+    subst hrest
+    rcases hx with rfl | rfl <;> rcases hy with rfl | rfl
+    · exact absurd rfl hxy
+    · exact Or.inr (Or.inr (Or.inr (Or.inl rfl)))
+    · exact Or.inr (Or.inr (Or.inr (Or.inr rfl)))
+    · exact absurd rfl hxy
+
+/-- **fuse_two_types_lossless.**  An end-to-end statement whose hypotheses are on the inputs
+    only: any number of well-typed values of (at most) two clean types, in any order, at any
+    memory limit: every output is a value of the type `fuse()` reports and carries exactly the
+    non-null leaves of its input. -/
+theorem fuse_two_types_lossless (fuel memMax : Nat) (a b : Ty) (xs : List Input) (outs : List Out) (T : Ty)
+    (ha : clean a = true) (hb : clean b = true) (hab : ∀ x ∈ xs, x.ty = a ∨ x.ty = b) (hwt : WellTyped xs)
+    (h : fuse fuel memMax xs = some outs) (hT : aggType fuel (xs.map (·.ty)) = some (some T))
+    (i : Nat) (hi : i < xs.length) :
+    ∃ v', outs[i]? = some (.val T v') ∧ ∀ l, l ∈ leaves T v' ↔ l ∈ leaves xs[i].ty xs[i].val := by
+  refine fuse_lossless_inputs_partial fuel memMax xs outs T h hT ?_ hwt i hi
+  have hmem : ∀ x ∈ xs, x.ty ∈ firstSeen [] (xs.map (·.ty)) := by
+    intro x hx
+    rw [mem_firstSeen]
+    exact ⟨List.mem_map_of_mem hx, by simp⟩
+  have hsub : ∀ t ∈ firstSeen [] (xs.map (·.ty)), t = a ∨ t = b := by
+    intro t ht
+    have := ((mem_firstSeen [] _ t).1 ht).1
+    obtain ⟨x, hx, rfl⟩ := List.mem_map.1 this
+    exact hab x hx
+  unfold aggType at hT
+  rcases two_element_lists _ (firstSeen_nodup [] _) hsub with e | e | e | e | e
+  · intro x hx; have := hmem x hx; rw [e] at this; simp at this
+  · rw [e] at hT
+    simp only [mixinAll, mixin, Option.bind_some, Option.some.injEq] at hT
+    subst hT
+    intro x hx; have := hmem x hx; rw [e] at this
+    simp only [List.mem_singleton] at this
+    rw [this]; exact fits_refl _
+  · rw [e] at hT
+    simp only [mixinAll, mixin, Option.bind_some, Option.some.injEq] at hT
+    subst hT
+    intro x hx; have := hmem x hx; rw [e] at this
+    simp only [List.mem_singleton] at this
+    rw [this]; exact fits_refl _
+  · rw [e] at hT
+    simp only [mixinAll, mixin, Option.bind_some, Option.bind_eq_some_iff, Option.map_eq_some_iff] at hT
+    obtain ⟨s, ⟨c, hc, rfl⟩, hs⟩ := hT
+    simp only [Option.some.injEq] at hs
+    subst hs
+    obtain ⟨f1, f2⟩ := merge_fitsJoin fuel a b c ha hb hc
+    intro x hx
+    rcases hab x hx with e' | e' <;> rw [e'] <;> assumption
+  · rw [e] at hT
+    simp only [mixinAll, mixin, Option.bind_some, Option.bind_eq_some_iff, Option.map_eq_some_iff] at hT
+    obtain ⟨s, ⟨c, hc, rfl⟩, hs⟩ := hT
+    simp only [Option.some.injEq] at hs
+    subst hs
+    obtain ⟨f1, f2⟩ := merge_fitsJoin fuel b a c hb ha hc
+    intro x hx
+    rcases hab x hx with e' | e' <;> rw [e'] <;> assumption
+
 /-- The value-level core: a good plan builds every well-typed value into the announced type
     with exactly the same non-null leaves. -/
 theorem build_lossless (s : Step) (a : Ty) (v : Val) (hg : goodStep a s = true) (ht : hasType v a = true) :
@@ -380,6 +509,13 @@ example : fuse 10 5 exOK = some
   intro x hx
   simp only [exOK, List.mem_cons, List.not_mem_nil, or_false] at hx
   rcases hx with rfl | rfl <;> decide
+
+/-- The input-only guards are satisfiable on the same example, and fail on the witnesses. -/
+example : (exOK.all fun x => clean x.ty && fits x.ty exT) = true ∧
+    (witRecUnion.all fun x => clean x.ty) = true ∧
+    (witRecUnion.all fun x => fits x.ty
+      (.union (.cons tStr (.cons (.record (.cons [97] tInt (.cons [98] tInt .nil))) .nil)))) = false ∧
+    (witMap.all fun x => clean x.ty) = false := by decide
 
 /-- `merge` answers on nested inputs with little fuel. -/
 example : merge 3 (.record (.cons [97] tInt .nil)) (.record (.cons [97] tStr (.cons [98] tInt .nil))) =
